@@ -29,6 +29,8 @@ func init() {
 			"every resolver entry point runs authorizePreFetch before the loader, subscriptions are authorized before they are registered, and the batch gate fails closed on a decision-count mismatch; the collector descends into the same composite kinds as the renderer and the protected bit has one source. " +
 			"It does not decide 'no denied byte in any response' (value level).",
 		Mutants: []Mutant{
+			{Name: "requests that carry a pre-fetch authorizer are de-duplicated again (reverts part of the F72 fix)", File: "v2/pkg/engine/resolve/inbound_request_singleflight.go", Rule: "C14-R6", Key: "InboundRequestSingleFlight.GetOrCreate/no-sharing-with-authorizer:preFetchFieldAuthorizer",
+				Old: "\tif ctx.authorizer != nil || ctx.preFetchFieldAuthorizer != nil {\n", New: "\tif ctx.authorizer != nil {\n"},
 			{Name: "subscription updates render with an unseeded decision cache (seeded change C14-21)", File: "v2/pkg/engine/resolve/resolve.go", Rule: "C14-R5", Key: "Resolver.executeSubscriptionUpdate/one-decision-object:renderer",
 				Old: "\tauthorization := NewFieldAuthorization(resolveCtx)\n\tresolvable.SetFieldAuthorization(authorization)\n", New: "\tauthorization := NewFieldAuthorization(resolveCtx)\n"},
 			{Name: "root field authorization rule looked up under the alias (seeded change C14-12)", File: "v2/pkg/engine/plan/path_builder_visitor.go", Rule: "C14-R4", Key: "addRootField/lookup-by-field-name",
@@ -59,6 +61,7 @@ func init() {
 }
 
 func runC14(r *fw.Run) {
+	defer c14NoInboundSharingForAuthorizedRequests(r)
 	p := r.Prog
 	pk := p.Pkg("resolve")
 	if pk == nil {
@@ -958,4 +961,81 @@ func c14OneDecisionObjectPerRequest(r *fw.Run) {
 		}
 	}
 	r.Expect("C14-R5", "roles of per-request FieldAuthorization objects", n, 12)
+}
+
+// c14NoInboundSharingForAuthorizedRequests (R6): a follower of the inbound single flight receives the leader's rendered
+// bytes verbatim — it runs neither the pre-fetch authorization nor the renderer that nulls denied fields. Which fields a
+// request may see is decided by the authorizers on its own context, and the sharing key (request id, variables hash,
+// headers hash) does not identify them. A request that carries an authorizer is therefore not eligible: in the function
+// that stores / finds the shared record (LoadOrStore on the shard map), the sharing point is reached only where every
+// field of resolve.Context whose type is one of the package's authorizer interfaces is known to be nil. The fields are
+// found by type, so an authorizer added later is covered.
+func c14NoInboundSharingForAuthorizedRequests(r *fw.Run) {
+	p := r.Prog
+	r.Rule("C14-R6", "the inbound single flight shares a record only for requests whose context carries no authorizer: the sharing point is dominated by a nil test of every resolve.Context field of an authorizer interface type")
+	ctxT := p.Named("resolve", "Context")
+	if ctxT == nil {
+		r.Error("C14-R6: resolve.Context not found")
+		return
+	}
+	var authFields []string
+	st := ctxT.Underlying().(*types.Struct)
+	for i := 0; i < st.NumFields(); i++ {
+		f := st.Field(i)
+		if n, ok := f.Type().(*types.Named); ok && n.Obj().Pkg() == ctxT.Obj().Pkg() && strings.HasSuffix(n.Obj().Name(), "Authorizer") {
+			if _, isIface := n.Underlying().(*types.Interface); isIface {
+				authFields = append(authFields, f.Name())
+			}
+		}
+	}
+	n := 0
+	for _, fi := range p.Funcs("resolve") {
+		if !strings.HasPrefix(fi.Name(), "InboundRequestSingleFlight.") {
+			continue
+		}
+		info := fi.Info()
+		var share *ast.CallExpr
+		fw.WalkAll(fi.Decl.Body, func(nd ast.Node) bool {
+			if c, ok := nd.(*ast.CallExpr); ok {
+				if fn := fw.Callee(info, c); fn != nil && fn.Name() == "LoadOrStore" {
+					share = c
+				}
+			}
+			return true
+		})
+		if share == nil {
+			continue
+		}
+		in := fw.NewInterp(fi)
+		in.H = fw.Hooks{
+			Lit: func(l *ast.FuncLit, ctx fw.LitCtx, st *fw.State) fw.LitMode { return fw.LitSkip },
+			Cond: func(e ast.Expr, branch bool, st *fw.State) {
+				op, leaves := fw.NNF(info, e, branch)
+				if op != "atom" && op != "and" {
+					return
+				}
+				for _, a := range leaves {
+					if a.Kind != "Nil" {
+						continue
+					}
+					for _, f := range authFields {
+						if fw.IsFieldSel(info, a.X, "resolve", "Context", f) {
+							st.Set("nil:" + f)
+						}
+					}
+				}
+			},
+			Node: func(nd ast.Node, st *fw.State) {
+				if c, ok := nd.(*ast.CallExpr); ok && c == share && in.Final() {
+					for _, f := range authFields {
+						n++
+						r.Check(st.Must("nil:"+f), "C14-R6", fi.Name()+"/no-sharing-with-authorizer:"+f, p.Pos(c.Pos()), "the shared record in "+fi.Name()+" is stored / found only where Context."+f+" is nil",
+							"the inbound single flight shares a record although the request may carry Context."+f+": a follower receives the leader's rendered bytes verbatim and runs no authorization of its own, so a request whose decision function denies a field is answered with the value the leader was allowed to see")
+					}
+				}
+			},
+		}
+		in.Run(nil)
+	}
+	r.Expect("C14-R6", "authorizer fields × sharing points of the inbound single flight", n, 2)
 }
